@@ -49,7 +49,8 @@ def check_path(algo, w, ex):
             v.append(('C06', 'attempts', 'line %s evaluated %d times > 2 + %d distinct waits' % (name, n, len(cnt.waits.get(name, ())))))
     if r1['exception'] is not None:
         # aborts are allowed outcomes (unsupported form, internal assertion on unknown names)
-        if r1['exception'] not in ('NotImplementedError',):
+        uses_unknown_line = any(w.action_name(a) == 'read_line fa.zz' for k_, a in w.choices.items() if k_[0] == 'act')
+        if r1['exception'] not in ('NotImplementedError',) and not (r1['exception'] == 'AssertionError' and uses_unknown_line):
             v.append(('C01', 'abort-' + r1['exception'], 'solve aborted with %s on a program that only uses known names / supported or deliberately unsupported forms' % r1['exception']))
         return v, info
     # ---------------------------------------------------------------- C13 (demand-exact prompting)
@@ -266,7 +267,7 @@ def run_all(bounds):
         k = a - 2 - len(w.input_names)
         if k >= 0:
             tgt = w.targets[k]
-        if tgt is None or tgt in ('fa.l0', 'nope.x'):
+        if tgt is None or tgt in ('fa.l0', 'nope.x', 'fa.zz'):
             tasks.append((bounds, a, None))
         else:
             for b in range(w.n_actions):
